@@ -52,6 +52,25 @@ Fixpoint guardedl (X U : Z) (l : list rstmt) : bool :=
        end) && guardedl X U r
   end.
 
+(* the outermost block is executed once: after X, reaching the end of the program without a
+   barrier is fine; only plain ops other than U may follow up to a barrier or the end *)
+Fixpoint bar_follows_top (U : Z) (l : list rstmt) : bool :=
+  match l with
+  | [] => true
+  | RLeaf id _ bar _ _ :: r => if bar then true else if id =? U then false else bar_follows_top U r
+  | _ => false
+  end.
+
+Fixpoint guardedl_top (X U : Z) (l : list rstmt) : bool :=
+  match l with
+  | [] => true
+  | x :: r =>
+      (match x with
+       | RLeaf id _ bar _ _ => if (id =? X) && negb bar then bar_follows_top U r else true
+       | _ => guarded X U x
+       end) && guardedl_top X U r
+  end.
+
 (* all leaves of a program (static ops with their core and footprint) *)
 Fixpoint leaves (s : rstmt) : list (Z * Z * list Z * list Z) :=
   let fix ll (l : list rstmt) := match l with [] => [] | x :: r => leaves x ++ ll r end in
@@ -72,5 +91,13 @@ Definition static_conflict (a b : Z * Z * list Z * list Z) : bool :=
    guarded in both directions *)
 Definition all_guarded (prog : list rstmt) : bool :=
   forallb (fun a => forallb (fun b =>
-     negb (static_conflict a b) || guardedl (fst (fst (fst a))) (fst (fst (fst b))) prog)
+     negb (static_conflict a b) || guardedl_top (fst (fst (fst a))) (fst (fst (fst b))) prog)
      (leavesl prog)) (leavesl prog).
+
+(* a straight-line function as a program: every op of the pre-order list is a leaf; DM ops run on
+   core 1, compute ops on core 0, everything else on all cores; the footprint of an op is the set of
+   SSA values it uses (no aliasing: one value = one buffer), conservatively all written *)
+Definition core_of (y : opinfo) : Z :=
+  match oi_kind y with BDM => 1 | BCompute => 0 | _ => -1 end.
+Definition leaf_of (y : opinfo) : rstmt :=
+  RLeaf (oi_id y) (core_of y) (is_sync y) [] (oi_operands y).
